@@ -22,7 +22,7 @@ pub struct Api;
 static FIXTURE: Mutex<Option<db::Fixture>> = Mutex::new(None);
 static FRESH: Mutex<Option<db::Fixture>> = Mutex::new(None);
 
-const DEADLINE: Duration = Duration::from_secs(10);
+const DEADLINE: Duration = Duration::from_secs(4);
 
 /// what the text promises, read off the sqlparser AST
 struct Expect {
@@ -262,13 +262,13 @@ impl Suite for Api {
     fn generate(&self, seed: u64, tier: &str) -> Vec<Case> {
         let mut r = Rng::new(seed ^ 0xC12_0002);
         let n = if tier == "thorough" { 40_000 } else { 2_500 };
-        let mut cases: Vec<Case> = PINNED.iter().map(|(c, t)| case_of(c, t)).collect();
+        let mut cases: Vec<Case> = PINNED.iter().map(|(c, t)| case_of(&crate::features::class_of(c, t), t)).collect();
         for t in ["SELECT name FROM _meta_tables", "SELECT * FROM _meta_tables", "SELECT COUNT(1) FROM _meta_tables"] {
             cases.push(Case { class: "fresh-db".into(), input: Sx::tagged("q", vec![Sx::bytes(t.as_bytes()), Sx::a("fresh")]) });
         }
         for _ in 0..n {
-            let (class, text) = gen::any(&mut r);
-            cases.push(case_of(class, &text));
+            let (class, text) = gen::any_api(&mut r);
+            cases.push(case_of(&crate::features::class_of(class, &text), &text));
         }
         cases
     }
@@ -279,7 +279,7 @@ impl Suite for Api {
         let slot = if fresh { &FRESH } else { &FIXTURE };
         let mut guard = slot.lock().unwrap_or_else(|e| e.into_inner());
         if guard.is_none() {
-            match db::build(2, false, !fresh) {
+            match db::build(4, false, !fresh) {
                 Ok(fx) => *guard = Some(fx),
                 Err(e) => {
                     return vec![Outcome {
@@ -343,8 +343,12 @@ impl Suite for Api {
             Called::Hang => {
                 impl_out = Sx::a("hang");
                 tainted = true;
-                let sig = panics.first().map(|p| db::panic_signature(p)).unwrap_or_else(|| "no-panic-recorded".into());
-                oracle = Some((format!("hang:{}", sig), format!("run_query did not return within {:?}; panics: {:?}", DEADLINE, panics)));
+                // a pool-thread panic whose task stays queued (or whose peers died too) never answers
+                let sig = match panics.first() {
+                    Some(p) => format!("lost-answer:{}", db::panic_signature(p)),
+                    None => "hang:no-panic-recorded".to_string(),
+                };
+                oracle = Some((sig, format!("run_query did not return within {:?}; panics: {:?}", DEADLINE, panics)));
             }
         }
         // error delivery: what parse_query rejects, run_query must reject with the same kind
